@@ -313,13 +313,24 @@ fn model_json(m: &Model) -> Value {
 
 /// Runs write_dictionary and write_bigram_details and describes the results.
 fn gen_event(ti: &TrainIn, m: &mut Model, who: &str) -> Value {
+    // the two exporters in either order (every other call writes the bigram details first: nothing
+    // documents an order, and a model fresh from train / read_model / read_user_lexicon must serve both)
+    static CALLS: std::sync::atomic::AtomicUsize = std::sync::atomic::AtomicUsize::new(0);
+    let details_first = CALLS.fetch_add(1, std::sync::atomic::Ordering::Relaxed) % 2 == 1;
     let (mut lex, mut mat, mut unk, mut usr) = (vec![], vec![], vec![], vec![]);
+    let (mut bl, mut br, mut bc) = (vec![], vec![], vec![]);
+    if details_first {
+        if let Err(e) = m.write_bigram_details(&mut bl, &mut br, &mut bc) {
+            return json!({"ev": "gen_err", "who": who, "msg": e.to_string()});
+        }
+    }
     if let Err(e) = m.write_dictionary(&mut lex, &mut mat, &mut unk, &mut usr) {
         return json!({"ev": "gen_err", "who": who, "msg": e.to_string()});
     }
-    let (mut bl, mut br, mut bc) = (vec![], vec![], vec![]);
-    if let Err(e) = m.write_bigram_details(&mut bl, &mut br, &mut bc) {
-        return json!({"ev": "gen_err", "who": who, "msg": e.to_string()});
+    if !details_first {
+        if let Err(e) = m.write_bigram_details(&mut bl, &mut br, &mut bc) {
+            return json!({"ev": "gen_err", "who": who, "msg": e.to_string()});
+        }
     }
     let chr = ti.adict_shell().render_char_def();
     // the emitted files must compile; what they say is read off the compiled dictionary
